@@ -484,3 +484,12 @@ def d8_month_spellings(ctx):
 
 
 RULES = [('L2', d8_month_spellings), ('D1', d1_steps), ('D2', d2_small_date), ('D3', d3_difference), ('D4', d4_day_constants), ('D5', d5_all_matches), ('D6', d6_month_numbers), ('D7', d7_split)]
+
+
+def d8_unique_fields(ctx):
+    """D8 a pattern that names two fields alike loses one of the matched tokens (shared rule)"""
+    from ..common import unique_field_names
+    unique_field_names(ctx, 'D8', ('small_date', 'at_date'), floor=4)
+
+
+RULES.append(('D8', d8_unique_fields))
